@@ -10,9 +10,9 @@ import os, json, hashlib, shutil
 from .framework import *
 
 PROPERTY = 'C10'
-GEN_MODULES = ['c10incl']
-LEAN_TARGETS = ['ChibiVerif.Props.C10', 'ChibiVerif.Findings.C10']
-PROPS_FILES = ['ChibiVerif/Props/C10.lean']
+GEN_MODULES = ['c10incl', 'c10ifparse']
+LEAN_TARGETS = ['ChibiVerif.Props.C10', 'ChibiVerif.Props.C10IfParse', 'ChibiVerif.Findings.C10', 'ChibiVerif.Findings.C10IfParse']
+PROPS_FILES = ['ChibiVerif/Props/C10.lean', 'ChibiVerif/Props/C10IfParse.lean']
 NEEDS_HOOKS = False
 KNOWN_SHIFT = 'C10-ppif-int-result-shift'
 TRUSTED_BASE = [
@@ -743,7 +743,13 @@ def check_cond_batch(ctx, corr, units, tag):
                 v['expected'], _ = run_pp(['gcc', '-E', '-P', 'shr.c'], d)
             corr.violations.append(v)
         elif spec.startswith('err:') and gcc_c == 'err' and impl.startswith('ok:'):
-            corr.violations.append({'what': 'ill-formed conditional nest accepted', 'input': src, 'expected': spec, 'got': impl})
+            v = {'what': 'ill-formed conditional nest accepted', 'input': src, 'expected': spec, 'got': impl}
+            if r['region'] and impl == model:
+                # an evaluated condition lies in the region of the known finding: chibicc takes another group than C11, and only the
+                # group C11 selects contains the ill-formed directive
+                v['known_id'] = KNOWN_SHIFT
+                corr.count('known:' + KNOWN_SHIFT)
+            corr.violations.append(v)
         if len(corr.samples) < 3 and valid and spec.count(',') > 3:
             corr.sample({'conditional nest': src.split('\n')[:14], 'markers': spec[:120]})
         if len([v for v in corr.violations if not v.get('known_id')]) >= 3 or len(corr.disagreements) >= 3:
@@ -1746,6 +1752,297 @@ def exhaustive_short(ctx, corr):
 
 # ============================================================================ entry points
 
+# ============================================================================ #if lines as tokens (Model/IfParse.lean, drv_c10 ifline)
+
+IFL_MACROS = [('MA', '1 + 2'), ('MB', '( 1 + 2 )'), ('MC', 'MA * 2'), ('MSELF', 'MSELF + 1'), ('MEMPTY', ''), ('MU', '0u'), ('MCH', "'a'"),
+              ('MNEG', '-'), ('MX', 'MY 1'), ('MY', 'MX +'), ('MBIG', '0xffffffffffffffff'), ('MCL', ')'), ('MLT', '1 <'), ('MZ', 'zzz_undefined')]
+IFL_JUNK = [('P', s) for s in ['(', ')', '+', '-', '*', '/', '%', '<<', '>>', '<', '>', '<=', '>=', '==', '!=', '&', '^', '|', '&&', '||', '?', ':',
+                                ',', '!', '~', '=', '+=', '++', '--', '[', ']', '{', '}', '.', '->', ';', '#']] + \
+           [('N', '1'), ('N', '0'), ('N', '2u'), ('N', '1.5'), ('N', '1x'), ('N', '0x'), ('N', '08'), ('O', '"s"'), ('O', "'a'"), ('I', 'zzz_undefined'),
+            ('I', 'defined'), ('I', 'true')]
+
+
+def lex_simple(text):
+    """tokens of a macro body written with blanks between all tokens"""
+    out = []
+    for w in text.split():
+        if w[0].isdigit():
+            out.append(('N', w))
+        elif w[0] in "'\"" or (w[0] in 'LuU' and len(w) > 1 and w[1] in "'\""):
+            out.append(('O', w))
+        elif w[0].isalpha() or w[0] == '_':
+            out.append(('I', w))
+        else:
+            out.append(('P', w))
+    return out
+
+
+IFL_AVOIDED = [0]
+IFL_AVOID_U_HIGH = [False]     # set by ifline_cases from Gen/LiteralsGen.lean
+
+
+def ifl_lit(rng, value=None):
+    """mk_lit.  Transitional: while the literal model of property C11 (Gen/LiteralsGen.lean `charPrefixes`, which `cvTok` uses) still
+    has the arm of tokenize.c from before the repair "U'\\xFFFFFFFF' is 0xFFFFFFFF in #if" (value kept sign-extended, post-processing
+    `.none`), UTF-32 character constants with bit 31 set are not generated here (counted); with the repaired arm they are."""
+    while True:
+        l = mk_lit(rng, value)
+        if IFL_AVOID_U_HIGH[0] and l[2].startswith("U'") and l[1] >= (1 << 31):
+            IFL_AVOIDED[0] += 1
+            continue
+        return l
+
+
+def gen_tl(rng, depth, names):
+    """tree of a controlling expression; also the comma operator, which gen_expr does not produce"""
+    if depth <= 0 or rng.random() < 0.2:
+        r = rng.random()
+        if r < 0.5:
+            return ifl_lit(rng, rng.choice([None, rng.randrange(0, 6)]))
+        if r < 0.75:
+            return ('i', rng.choice(names + KEYWORD_IDENTS))
+        return ('d', rng.choice(names + ['zzz_undefined']), rng.choice(['p', 's']))
+    sub = lambda: gen_tl(rng, depth - 1, names)
+    r = rng.random()
+    if r < 0.17:
+        return ('u', rng.choice(list(UN)), sub())
+    if r < 0.29:
+        return ('c', sub(), sub(), sub())
+    if r < 0.34:
+        return ('k', sub(), sub())
+    op = rng.choice(list(BIN))
+    a = sub()
+    if op in ('shl', 'shr'):
+        b = ifl_lit(rng, rng.choice([0, 1, 2, 5, 31, 32, 33, 40, 62, 63]))
+    elif op in ('div', 'mod') and rng.random() < 0.8:
+        b = ifl_lit(rng, rng.choice([1, 2, 3, 7, 0xffffffff, 0xffffffffffffffff]))
+    else:
+        b = sub()
+    return ('b', op, a, b)
+
+
+def tl_tokens(e, rng, prec=0):
+    """tokens of the tree with the parentheses the C11 grammar requires (and a few redundant ones).  Levels: comma -1, ?: 0,
+    || 1 ... * / % 10, unary 11"""
+    k = e[0]
+    if k == 'n':
+        return [('O' if ("'" in e[2]) else 'N', e[2])]
+    if k == 'i':
+        return [('I', e[1])]
+    if k == 'd':
+        return [('I', 'defined'), ('P', '('), ('I', e[1]), ('P', ')')] if e[2] == 'p' else [('I', 'defined'), ('I', e[1])]
+    if k == 'u':
+        ts, myp = [('P', UN[e[1]])] + tl_tokens(e[2], rng, 11), 11
+    elif k == 'b':
+        sym, p = BIN[e[1]]
+        ts, myp = tl_tokens(e[2], rng, p) + [('P', sym)] + tl_tokens(e[3], rng, p + 1), p
+    elif k == 'c':
+        ts, myp = tl_tokens(e[1], rng, 1) + [('P', '?')] + tl_tokens(e[2], rng, -1) + [('P', ':')] + tl_tokens(e[3], rng, 0), 0
+    else:
+        ts, myp = tl_tokens(e[1], rng, 0) + [('P', ',')] + tl_tokens(e[2], rng, -1), -1
+    if myp < prec or rng.random() < 0.08:
+        return [('P', '(')] + ts + [('P', ')')]
+    return ts
+
+
+def tl_norm(e, defined):
+    """the tree chibicc's parser builds for a macro-free line, in the driver's prefix notation"""
+    k = e[0]
+    if k == 'n':
+        return f'n {e[1]} {"u" if e[3] else "s"}'
+    if k == 'i':
+        return 'n 0 s'
+    if k == 'd':
+        return f'n {1 if e[1] in defined else 0} s'
+    if k == 'u':
+        return tl_norm(e[2], defined) if e[1] == 'plus' else f'u {e[1]} {tl_norm(e[2], defined)}'
+    if k == 'b':
+        a, b = tl_norm(e[2], defined), tl_norm(e[3], defined)
+        if e[1] in ('gt', 'ge'):
+            return f'b {"lt" if e[1] == "gt" else "le"} {b} {a}'
+        return f'b {e[1]} {a} {b}'
+    if k == 'c':
+        return f'c {tl_norm(e[1], defined)} {tl_norm(e[2], defined)} {tl_norm(e[3], defined)}'
+    return f'k {tl_norm(e[1], defined)} {tl_norm(e[2], defined)}'
+
+
+def tok_proto(ts):
+    return ' '.join(k + (t.encode().hex() if k == 'O' else t) for k, t in ts)
+
+
+def ifl_final_positions(ts):
+    """macro-free line `#if t0 t1 ...` (one blank between tokens): for each token that const_expr sees, ('orig', column) or
+    ('new',) for the 0/1 tokens made by new_num_token; None if read_const_expr rejects the line"""
+    cols, c = [], 4
+    for k, t in ts:
+        cols.append(c)
+        c += len(t) + 1
+    out, i = [], 0
+    while i < len(ts):
+        k, t = ts[i]
+        if k == 'I' and t == 'defined':
+            if i + 1 < len(ts) and ts[i + 1] == ('P', '('):
+                if i + 2 < len(ts) and ts[i + 2][0] == 'I':
+                    if i + 3 < len(ts) and ts[i + 3] == ('P', ')'):
+                        out.append(('new',)); i += 4; continue
+                return None
+            if i + 1 < len(ts) and ts[i + 1][0] == 'I':
+                out.append(('new',)); i += 2; continue
+            return None
+        out.append(('new',) if k == 'I' else ('orig', cols[i]))
+        i += 1
+    return out
+
+
+IFL_MSG = (('no expression', 'noexpr'), ('expected an expression', 'expected-expr'), ("expected ')'", 'expected)'), ("expected ':'", 'expected:'),
+           ('extra token', 'extra'), ('macro name must be an identifier', 'defined'), ('division by zero', 'divzero'))
+
+
+def ifl_chibicc_diag(stderr):
+    """(class, line, column, displayed source line) of the diagnostic chibicc died with"""
+    lines = stderr.splitlines()
+    for j in range(len(lines) - 1, 0, -1):
+        m = re.match(r'(\s*)\^ (.*)$', lines[j])
+        h = re.match(r'^(\S+?):(\d+): (.*)$', lines[j - 1])
+        if m and h:
+            cls = next((c for pat, c in IFL_MSG if pat in m.group(2)), 'other:' + m.group(2)[:50])
+            prefix = len(h.group(1)) + len(h.group(2)) + 3
+            return cls, int(h.group(2)), len(m.group(1)) - prefix, h.group(3)
+    return 'none', 0, 0, ''
+
+
+def ifline_cases(ctx, corr, n_valid, n_bad, stop_early=True):
+    """`#if` lines as token lists: chibicc -E  vs  Model/IfParse.lean through `drv_c10 ifline` (tree, diagnostic class and position,
+    decision)  vs  gcc -E -P -std=c11 -pedantic-errors (decision; -pedantic-errors makes gcc diagnose an evaluated comma
+    operator, C11 6.6p3), and the model's tree vs the tree the generator printed (macro-free lines)."""
+    rng = ctx.rng
+    d = case_dir(ctx, 'ifline')
+    open(os.path.join(d, 'w.c'), 'w').write("#if U'\\xFFFFFFFF' == 0xFFFFFFFF\nmk_t\n#else\nmk_f\n#endif\n")
+    corr.extra['repaired_char32_bit31_in_if'] = {'input': "#if U'\\xFFFFFFFF' == 0xFFFFFFFF", 'chibicc': run_pp([ctx.cc, '-E', 'w.c'], d)[0],
+                                                          'C11/gcc': run_pp(['gcc', '-E', '-P', 'w.c'], d)[0]}
+    IFL_AVOIDED[0] = 0
+    lg = open(os.path.join(ctx.lean_dir, 'ChibiVerif/Gen/LiteralsGen.lean')).read()
+    IFL_AVOID_U_HIGH[0] = bool(re.search(r'\(\[85\], \.ty_uint, \.none\)', lg))
+    cases = []
+    for j in range(n_valid + n_bad):
+        macros = rng.sample(IFL_MACROS, rng.choice([0, 0, 1, 2, 4])) if rng.random() < 0.5 else []
+        names = [m for m, _ in macros]
+        e = gen_tl(rng, rng.choice([1, 2, 3, 4, 5]), names)
+        ts = tl_tokens(e, rng)
+        bad = j >= n_valid
+        if bad:
+            for _ in range(rng.choice([1, 1, 1, 2])):
+                r = rng.random()
+                if r < 0.35 and ts:
+                    del ts[rng.randrange(len(ts))]
+                elif r < 0.7:
+                    ts.insert(rng.randrange(len(ts) + 1), rng.choice(IFL_JUNK))
+                elif r < 0.85 and ts:
+                    ts = ts[:rng.randrange(len(ts))]
+                elif ts:
+                    ts[rng.randrange(len(ts))] = rng.choice(IFL_JUNK)
+        uses_macro = any(k == 'I' and t in names for k, t in ts)
+        # the order of the #define lines matters for nothing (bodies are rescanned at the point of use)
+        src = ''.join(f'#define {m} {b}\n' for m, b in macros)
+        line_no = len(macros) + 1
+        src += '#if ' + ' '.join(t for _, t in ts) + f'\nmk_{j}_t\n#else\nmk_{j}_f\n#endif\n'
+        proto = ''.join(f'define {m} {tok_proto(lex_simple(b))}\n' for m, b in macros)
+        proto += f'tree {tok_proto(ts)}\nif {tok_proto(ts)}\nt mk_{j}_t\nelse\nt mk_{j}_f\nendif\nend\n'
+        cases.append({'j': j, 'e': e, 'ts': ts, 'bad': bad, 'macros': macros, 'uses_macro': uses_macro, 'src': src, 'proto': proto,
+                      'line': line_no, 'want_tree': None if (bad or uses_macro) else tl_norm(e, set(names))})
+    corr.count('ifline:avoided-U-high', IFL_AVOIDED[0])
+    out = ctx.driver('ifline', ''.join(c['proto'] for c in cases)).splitlines()
+    if len(out) != 2 * len(cases):
+        corr.disagreements.append({'kind': 'driver protocol (ifline)', 'note': f'{len(out)} answers for {len(cases)} cases'})
+        return
+    for c, l1, l2 in zip(cases, out[0::2], out[1::2]):
+        m1 = re.match(r'comma=([01]) shift=([01]) undef=([01]) tree=(.*)$', l1)
+        m2 = re.match(r'model=(.*?) spec=(.*?) region=([01])$', l2)
+        if not m1 or not m2:
+            corr.disagreements.append({'kind': 'driver protocol (ifline)', 'input': c['src'], 'got': l1 + ' / ' + l2})
+            return
+        c.update(comma=m1.group(1) == '1', shift=m1.group(2) == '1', undef=m1.group(3) == '1', tree=m1.group(4),
+                 model=model_markers(m2.group(1)), spec=model_markers(m2.group(2)))
+    for c in cases:
+        j, src = c['j'], c['src']
+        corr.evaluations += 1
+        open(os.path.join(d, 'l.c'), 'w').write(src)
+        rc1, o1, e1 = sh([ctx.cc, '-E', 'l.c'], cwd=d, timeout=20)
+        rc2, o2, e2 = sh(['gcc', '-E', '-P', '-std=c11', '-pedantic-errors', 'l.c'], cwd=d, timeout=20)
+        a = 'ok:' + ','.join(MARK.findall(o1)) if rc1 == 0 else 'err'
+        g = 'ok:' + ','.join(MARK.findall(o2)) if rc2 == 0 else 'err'
+        tree = c['tree']
+        corr.count('ifline:' + ('tree' if not tree.startswith('err:') else tree.split('@')[0][4:]))
+        if c['macros']:
+            corr.count('ifline:with-macros')
+        if len(c['ts']) >= 5:
+            corr.nontrivial.add('ifline:' + hashlib.sha1(src.encode()).hexdigest())
+        if c['undef']:
+            corr.count('skipped_ub')
+            continue
+        if tree.startswith('err:unmodelled'):
+            # outside the fragment of the model: no claim, except that a line gcc and the grammar reject is not silently *selected* wrongly
+            corr.count('skipped_unmodelled')
+            continue
+        # ---- model vs code
+        if not tree.startswith('err:'):
+            if c['want_tree'] is not None and tree != c['want_tree']:
+                corr.disagreements.append({'kind': '#if line: tree of the model vs tree the generator printed', 'input': src, 'model': tree,
+                                           'expected': c['want_tree']})
+            if c['model'].startswith('ok:'):
+                if a != c['model']:
+                    corr.disagreements.append({'kind': '#if line: decision of the model vs chibicc -E', 'input': src, 'model': c['model'],
+                                               'impl': a + ' ' + e1[-200:], 'gcc': g})
+            else:
+                cls = ifl_chibicc_diag(e1)[0] if rc1 != 0 else 'accepted'
+                if cls != 'divzero':
+                    corr.disagreements.append({'kind': '#if line: the model reports a division by zero, chibicc -E does not', 'input': src,
+                                               'impl': a + ' ' + cls, 'gcc': g})
+        else:
+            mcls, _, mi = tree[4:].partition('@')
+            cls, ln, col, shown = ifl_chibicc_diag(e1) if rc1 != 0 else ('accepted', 0, 0, '')
+            okc = cls == mcls or (mcls == 'defined' and cls == 'expected)') or (mcls == 'expand' and rc1 != 0)
+            if not okc:
+                corr.disagreements.append({'kind': '#if line: diagnostic class of the model vs chibicc -E', 'input': src, 'model': tree,
+                                           'impl': cls + ' ' + e1[-200:], 'gcc': g})
+            elif mi and not c['uses_macro'] and mcls != 'divzero':
+                pos = ifl_final_positions(c['ts'])
+                if pos is not None:
+                    i = int(mi)
+                    if i >= len(pos):
+                        want = (c['line'] + 1, 0)
+                    elif pos[i][0] == 'orig':
+                        want = (c['line'], pos[i][1])
+                    else:
+                        want = (c['line'], 0)
+                    corr.count('ifline:located')
+                    if (ln, col) != want:
+                        corr.disagreements.append({'kind': '#if line: position of the diagnostic, model vs chibicc -E', 'input': src, 'model': tree,
+                                                   'expected_line_col': list(want), 'impl': [ln, col, shown]})
+        # ---- specification vs gcc, code vs gcc
+        if c['comma']:
+            corr.count('ifline:comma-latitude')        # gcc -pedantic-errors rejects an evaluated comma; chibicc takes the right operand
+        else:
+            spec_c = c['spec'] if c['spec'].startswith('ok:') else 'err'
+            if spec_c != g:
+                corr.disagreements.append({'kind': '#if line: C11 value of the parsed tree (specification) vs gcc -E -P (specification wrong?)',
+                                           'input': src, 'spec': c['spec'], 'tree': tree, 'gcc': g + ' ' + e2[-200:]})
+            if g.startswith('ok:') and a != g:
+                v = {'what': '#if line: the group chibicc -E selects differs from C11 (gcc -E -P -pedantic-errors)', 'input': src, 'expected': g,
+                     'got': a + ('' if rc1 == 0 else ' ' + ifl_chibicc_diag(e1)[0])}
+                if c['shift'] and a == c['model']:
+                    v['known_id'] = KNOWN_SHIFT
+                    corr.count('known:' + KNOWN_SHIFT)
+                corr.violations.append(v)
+            elif g == 'err' and a.startswith('ok:'):
+                corr.violations.append({'what': '#if line without a value accepted (C11 6.10.1p1, 6.6; gcc rejects it)', 'input': src,
+                                        'expected': 'a diagnostic (' + e2.strip().splitlines()[0][:100] + ')' if e2.strip() else 'a diagnostic', 'got': a})
+        if stop_early and (len([v for v in corr.violations if not v.get('known_id')]) >= 3 or len(corr.disagreements) >= 3):
+            return
+    corr.sample({'#if lines as tokens': [c['src'].splitlines()[len(c['macros'])] for c in cases[:4]] +
+                 [c['src'].splitlines()[len(c['macros'])] + '   -> ' + c['tree'] for c in cases[n_valid:n_valid + 4]]})
+
+
 def correspond(ctx, corr):
     corr.rule = ('(1) corpus of repaired defects; (2) generated conditional nests (depth <= 5; controlling expressions over suffixed literals, '
                  'all operators incl. ?:, defined, undefined identifiers and keywords, macros defined earlier; #elif chains; trailing tokens; null '
@@ -1760,7 +2057,10 @@ def correspond(ctx, corr):
                  'counting conditionals or a false conditional, cycles in skipped groups, chains of exactly 15/199/200/201/202 nested files, a missing '
                  'file / a guarded / a #pragma-once header named at depth 200: outcome (marker stream, or diagnostic class + file:line of "#include '
                  'nested too deeply") of chibicc -E == model (total function IncludeDepth.includeRun, no step budget) and == gcc -E -P '
-                 '-fmax-include-depth=201; (6) character constants of every prefix and spelling in #if. '
+                 '-fmax-include-depth=201; (6) character constants of every prefix and spelling in #if; (7) #if lines as TOKEN lists (every operator, nesting, '
+                 'comma, both defined forms, undefined identifiers and keywords, suffixed and character constants, object-like macros with token-level '
+                 'bodies incl. self-reference, empty and unbalanced bodies; token-level mutations for malformed lines): tree of Model/IfParse.lean == '
+                 'tree the generator printed, decision == chibicc -E == gcc -E -P -pedantic-errors, diagnostic class and line:column == chibicc -E. '
                  'non-trivial = a nest with >= 3 opened conditionals beyond the probes, an arithmetic expression, or a graph with >= 4 files; '
                  'distinct = by source text + options.')
     run_corpus(ctx, corr)
@@ -1769,6 +2069,7 @@ def correspond(ctx, corr):
     cycle_cases(ctx, corr, 60 if not ctx.thorough else 1500)
     exhaustive_short(ctx, corr)
     arith_cases(ctx, corr)
+    ifline_cases(ctx, corr, *((500, 250) if not ctx.thorough else (8000, 4000)))
     nv, nb, ng = (700, 200, 350) if not ctx.thorough else (12000, 3000, 6000)
     for chunk in range(0, nv, 400):
         cond_cases(ctx, corr, min(400, nv - chunk), min(100, max(0, nb - chunk // 4)), 'nest')
@@ -1788,6 +2089,7 @@ def search(ctx, broken, corr):
         cond_cases(ctx, c2, 300, 60, 'search')
         include_cases(ctx, c2, 200)
         arith_cases(ctx, c2)
+        ifline_cases(ctx, c2, 300, 100)
         vs = [v for v in c2.violations if not v.get('known_id')]
         if vs:
             return vs[0]
@@ -1837,11 +2139,20 @@ MANIFEST = {
                   'macro-produced operands (C10_operand_forms, C10_search_directive); -D/-U/-include '
                   'are equivalent to #define/#undef lines in command-line order and files in front of the main file (C10_cmdline). '
                   '#if arithmetic: _partial (known finding C10-ppif-int-result-shift: comparison results are typed int). '
+                  '#if lines as TOKENS (Props/C10IfParse.lean): eval_const_expr -> read_const_expr -> expansion -> identifiers 0 -> conversion -> '
+                  'const_expr/conditional...primary as a recursive-descent parser over the operator table regenerated from parse.c: total with fuel '
+                  'length+1 and located outcomes (C10_ifparse_total), the regenerated table is the table of C11 6.5.5-6.5.14 (C10_ifparse_table), '
+                  'every tree delivered is derived by the C11 6.5/6.6 grammar for exactly that token list (C10_ifparse_precedence), defined before '
+                  'expansion / identifiers 0 after it (C10_ifparse_defined), and token line => decision = C11 value of the C11 parse tree, lifted to '
+                  'whole units through C10_groups (C10_ifline, C10_ifline_groups; outside comma operator / known finding / undefined behaviour). '
                   'Tied to the code on every run by a translator that pins the text of every transcribed arm and by differential '
                   'execution of chibicc -E, the model and gcc -E -P on generated nests, arithmetic and include graphs.',
     'level_note': 'Trusted: Lean kernel (axioms propext, Classical.choice, Quot.sound; audited each run); the abstraction of files to lines '
                   '(done by the generator, which renders every line both ways); the C11/gcc reading in Spec/CondInclSpec.lean and '
-                  'Model/PPExpr.lean (validated against gcc 12 each run); parse.c\'s expression evaluator is modelled at the value level only. '
+                  'Model/PPExpr.lean (validated against gcc 12 each run); parse.c\'s expression evaluator is modelled at the value level; its expression parser is modelled for the fragment a controlling '
+                  'expression can contain (tokens that leave the fragment are the explicit outcome `unmodelled`); macro expansion inside #if lines is a '
+                  'parameter of the theorems (object-like expansion in the correspondence runs; the general expander is property C09); the values of '
+                  'integer and character constants come from the literal model of property C11. '
                   'The path-prefix approximation in search_include_next (nested include directories) and #pragma once by path spelling '
                   'are stated as assumptions and not generated against gcc.',
     'technique': 'Lean 4: simulation proof machine = grammar-tree evaluation by mutual structural induction over the tree + parser '
